@@ -17,7 +17,7 @@ import numpy as np
 from hypothesis import strategies as st
 
 from vlib import arrays as A
-from vlib.runner import Part, R
+from vlib.runner import Part, R, make_sweep
 
 PROPERTY = "C10"
 RULE = ("Hypothesis draws (wavelet name from pywt families haar/db/sym/coif: 40 % from the filters with <= 8 taps, "
@@ -330,4 +330,27 @@ def check_case(case):
     return r
 
 
-PARTS = [Part("wavelet", check_case, {"quick": 6000, "thorough": 100000}, strategy=st_case)]
+def sweep_configs():
+    """finite sub-domain enumerated completely: 1-D lengths 1..48 x 6 wavelets x level {None,1,2}; 2-D [n,5]/[5,n]
+    with a single (also negative) transformed axis for n in 1..20."""
+    out = []
+    for wave in ("haar", "db2", "db4", "sym5", "coif2", "db8"):
+        for n in range(1, 49):
+            for level in (None, 1, 2):
+                out.append({"wave": wave, "shape": [n], "axes": None, "level": level, "seed": n,
+                            "x": {"k": "g", "shape": [n], "dtype": "complex128", "seed": 31 * n + 1}})
+    for wave in ("haar", "db3"):
+        for n in range(1, 21):
+            for shape, axes in (([n, 5], [0]), ([5, n], [-1]), ([n, 5], [-2]), ([n, 5], [1, 0])):
+                out.append({"wave": wave, "shape": shape, "axes": axes, "level": 1, "seed": n,
+                            "x": {"k": "g", "shape": shape, "dtype": "float64", "seed": 17 * n + 3}})
+    return out
+
+
+def extra_coverage(tier):
+    return {"exhaustive_subdomains": ["fwt/iwt/Wavelet: 1-D lengths 1..48 x {haar,db2,db4,sym5,coif2,db8} x level {None,1,2} and 2-D "
+                                      "single/unsorted-axes transforms for n in 1..20 (%d configurations, part 'lengths')" % len(sweep_configs())]}
+
+
+PARTS = [Part("wavelet", check_case, {"quick": 6000, "thorough": 100000}, strategy=st_case),
+         make_sweep("lengths", sweep_configs, check_case)]
